@@ -1,6 +1,7 @@
 package props
 
 import (
+	"bytes"
 	"encoding/json"
 	"fmt"
 	"testing"
@@ -60,6 +61,12 @@ func genC09Base(t *rapid.T) (model.Packet, *ref.Frame) {
 		gen.DisconnectProps(t, &m, o)
 	}
 	st := drawStyle(t).style()
+	if rapid.IntRange(0, 7).Draw(t, "hugefield") == 0 {
+		// one string / binary field at the top of the length range: 65533,
+		// 65534 or 65535 bytes (where 16-bit length arithmetic wraps)
+		hugeify(t, &m)
+		return m, ref.Tree(&m, st)
+	}
 	if rapid.IntRange(0, 3).Draw(t, "steer-proplen") == 0 && typ != model.PINGREQ && typ != model.PINGRESP {
 		// pad with one user property so that the (first) property section is
 		// exactly target bytes long
@@ -235,4 +242,47 @@ func TestC09(t *testing.T) {
 			r.Note("class %s was not reached in this run", cell)
 		}
 	}
+}
+
+// hugeify sets one string or binary field of the model to 65533..65535 bytes.
+func hugeify(t *rapid.T, m *model.Packet) {
+	n := rapid.SampledFrom([]int{65533, 65534, 65535}).Draw(t, "hugelen")
+	s := string(bytes.Repeat([]byte{'h'}, n))
+	var targets []func()
+	add := func(f func()) { targets = append(targets, f) }
+	switch m.Type {
+	case model.CONNECT:
+		add(func() { m.ClientID = s })
+		add(func() { m.Username, m.HasUsername = s, true })
+		add(func() { m.Password, m.HasPassword = []byte(s), true })
+		add(func() { m.AuthMethod = s })
+		if m.Will != nil {
+			add(func() { m.Will.Topic = s })
+			add(func() { m.Will.Payload = []byte(s) })
+			add(func() { m.Will.ContentType = s })
+		}
+	case model.CONNACK:
+		add(func() { m.ReasonString = s })
+		add(func() { m.AssignedClientID = s })
+		add(func() { m.AuthData, m.AuthMethod = []byte(s), "m" })
+	case model.PUBLISH:
+		add(func() { m.TopicName = s })
+		add(func() { m.ResponseTopic = s })
+		add(func() { m.CorrelationData = []byte(s) })
+	case model.PUBACK, model.PUBREC, model.PUBREL, model.PUBCOMP, model.SUBACK, model.UNSUBACK, model.DISCONNECT, model.AUTH:
+		add(func() { m.ReasonString = s })
+	case model.SUBSCRIBE:
+		add(func() { m.Filters = append(m.Filters, model.Filter{Filter: s, Opts: 1}) })
+	case model.UNSUBSCRIBE:
+		add(func() { m.UnsubFilters = append(m.UnsubFilters, s) })
+	}
+	if m.Type != model.PINGREQ && m.Type != model.PINGRESP {
+		add(func() { m.UserProps = append(m.UserProps, model.KV{K: "k", V: s}) })
+		add(func() { m.UserProps = append(m.UserProps, model.KV{K: s, V: ""}) })
+	}
+	if len(targets) == 0 {
+		return
+	}
+	targets[rapid.IntRange(0, len(targets)-1).Draw(t, "hugetarget")]()
+	m.Normalize()
 }
